@@ -2,7 +2,7 @@
 from hypothesis import strategies as st
 
 from ..model import ast as A, strategies as S, render
-from ..run import Outcome, Violation, exc_bucket, HarnessError
+from ..run import Outcome, Violation, exc_bucket, HarnessError, sha
 from .. import canon, ref
 from . import common as K
 
@@ -118,7 +118,12 @@ def check(c):
     out = Outcome(key=variant, classes=sorted(edits) + (["grammar-tokenises-variant-differently"] if lexical_change else []),
                   sample={"variant": variant, "canonical": canonical})
     out.nontrivial = len(edits) >= 3 and bool(feats & {"array", "loop"})
-    p1, e1 = K.safe_loads(variant)
+    if variant.isascii() and int(sha(variant)[:2], 16) % 3 == 0:
+        # the variant through the file entry point (a file whose earlier version was loaded from the same path just before)
+        out.classes.append("load(path)")
+        p1, e1 = K.safe_load_text_via_file(variant)
+    else:
+        p1, e1 = K.safe_loads(variant)
     ctx = "variant text: %r\ncanonical text:\n%s" % (variant, canonical)
     if e1 is not None:
         out.violations.append(Violation("variant-rejected|" + exc_bucket("load", e1) + "|" + _blame(sc, lay),
